@@ -223,6 +223,16 @@ func (s *Sim) checkRelease(n *SendNode, what, name, md5 string) {
 }
 
 func (s *Sim) checkStatusAnswer(d *gkDeco, name string, code int) {
+	if s.on("C05") && s.sc.Mode == "w2" && s.sc.Extra["c05age"] != nil && code == sts.ConfirmNone {
+		// single-version names: once delivered, the file is known - from memory
+		// or, after ageing, from the log, which a question makes the receiver read
+		for _, a := range s.ob.arrivals {
+			if s.arrivalIsOf(a, name) {
+				s.violate("C05", "delivered-file-answered-unknown", "asked about %s, which was delivered (and logged) before, the receiver answers that it does not know the file", name)
+				break
+			}
+		}
+	}
 	if !s.on("C02", "C01", "C06") {
 		return
 	}
